@@ -7,10 +7,13 @@ import sys, glob, importlib
 sys.path.insert(0, os.path.join(V, "lib"))
 DEFAULT_NOTE = "see DESIGN.md"
 CLAIMED = {}
+# only checks listed in lib/registered.txt (maintained by hand, after a check has been
+# seen to pass on the unchanged tree) are claimed
+REGISTERED = set(open(os.path.join(V, "lib", "registered.txt")).read().split())
 for f in sorted(glob.glob(os.path.join(V, "lib", "prop_C*.py"))):
     pid = os.path.basename(f)[5:-3]
     mod = importlib.import_module("prop_" + pid)
-    if getattr(mod, "MANIFEST_ENTRY", None):
+    if getattr(mod, "MANIFEST_ENTRY", None) and pid in REGISTERED:
         CLAIMED[pid] = mod.MANIFEST_ENTRY
 
 def main():
